@@ -1,10 +1,13 @@
 package main
 
-// A tiny Go → Lean translator for straight-line decision functions: bodies made of
-// `if … { return … }` chains, `switch` on a tag with constant cases, and `return` of expressions
-// over integers, bytes and booleans. The Lean signature and the mapping of Go identifiers to Lean
-// variables are supplied by the caller; only the body is translated. Anything outside the fragment
-// is reported as MISSING (the orchestrator then falls back to the pinned facts).
+// A small Go → Lean translator for straight-line decision functions: bodies made of
+// `if … { return … }` chains, `switch` on a tag with constant cases, local `:=` bindings and `return` of
+// expressions over integers, bytes, byte strings and booleans. The Lean signature and the mapping of Go identifiers
+// to Lean variables are supplied by the caller; only the body is translated. Per function the caller can widen the
+// fragment (trOpts): struct-valued expressions and method calls on them, composite literals as tuples, `x == nil`,
+// `panic` → none, `bits.Add64`, error results (`fmt.Errorf("…%w…", ErrX)` → .error "ErrX"), assignments to the
+// receiver's fields, and Go's fixed-width arithmetic (typed.go). Anything outside the fragment is reported as
+// MISSING (the orchestrator then falls back to the pinned facts) — never a guessed or empty definition.
 
 import (
 	"fmt"
@@ -17,15 +20,230 @@ import (
 
 type trCtx struct {
 	p     *pkg
-	ren   map[string]string // Go ident or "x.Field" → Lean term
+	ren   map[string]string // Go ident or "x.Field" → Lean term; "nil:x" → Lean Bool for `x == nil`
 	calls map[string]string // Go function name → Lean function (applied to translated args)
 	what  string
+	trOpts
+}
+
+// sval is a struct-valued Go expression (`d.from`, `date`, `*to`, `v`): its fields and the Lean term of each.
+type sval struct {
+	fields []string
+	terms  []string
+}
+
+// method maps a Go method `x.M(y…)` to a Lean function applied to the listed fields of the receiver and of
+// every struct-valued argument (scalar arguments are passed as they are).
+type method struct {
+	lean   string
+	fields []string
+}
+
+// trOpts widens the fragment for one function; the zero value is the original fragment.
+type trOpts struct {
+	svals   map[string]sval   // struct-valued expressions; keys as rendered by render()
+	methods map[string]method // translated methods
+	lits    map[string]bool   // struct types whose composite literals are translated (true: tagged `("T", [fields…])`)
+	partial bool              // `panic(…)` → none, `return x` → some x
+	errRes  bool              // the last result is an error: `…, nil` → .ok …, `fmt.Errorf("…%w…", ErrX, …)` → .error "ErrX"
+	wrap    map[string]string // fixed-width Go type → Lean wrapping function (typed mode, see typed.go); nil = unbounded
+	types   map[string]string // rendered Go expression → Go type (typed mode)
+	recv    string            // errRes with no other result: key in svals of the receiver whose final state is returned
+	forbid  []token.Token     // operators that would need fixed-width wrapping here: reported as MISSING
+}
+
+// render prints the small expressions that are used as keys of ren/svals.
+func render(e ast.Expr) string {
+	switch e := e.(type) {
+	case *ast.Ident:
+		return e.Name
+	case *ast.SelectorExpr:
+		return render(e.X) + "." + e.Sel.Name
+	case *ast.StarExpr:
+		return "*" + render(e.X)
+	case *ast.ParenExpr:
+		return render(e.X)
+	}
+	return "?"
+}
+
+func isNil(e ast.Expr) bool {
+	id, ok := e.(*ast.Ident)
+	return ok && id.Name == "nil"
+}
+
+func (sv sval) pick(fields []string, what string) []string {
+	if fields == nil {
+		return sv.terms
+	}
+	var out []string
+	for _, f := range fields {
+		found := false
+		for i, g := range sv.fields {
+			if g == f {
+				out = append(out, sv.terms[i])
+				found = true
+			}
+		}
+		if !found {
+			miss("%s: struct value has no field %s", what, f)
+		}
+	}
+	return out
+}
+
+// constFold evaluates an expression built from literals and package constants only.
+func (t *trCtx) constFold(e ast.Expr) (string, bool) {
+	local := false
+	ast.Inspect(e, func(n ast.Node) bool {
+		if id, ok := n.(*ast.Ident); ok {
+			if _, ok := t.ren[id.Name]; ok {
+				local = true
+			}
+			if _, ok := t.svals[id.Name]; ok {
+				local = true
+			}
+		}
+		return true
+	})
+	if local {
+		return "", false
+	}
+	if v, ok := t.p.eval(e, 0); ok {
+		if n, ok := v.(*big.Int); ok && n.Sign() >= 0 {
+			return n.String(), true
+		}
+	}
+	return "", false
+}
+
+// zeroOf is the zero value of a Go type in the model's representation.
+func (t *trCtx) zeroOf(typ string) string {
+	switch typ {
+	case "int", "int8", "int16", "int32", "int64", "uint", "uint8", "uint16", "uint32", "uint64", "byte":
+		return "0"
+	case "string":
+		return "[]"
+	}
+	if fs, ok := t.p.structs[typ]; ok {
+		parts := make([]string, len(fs))
+		for i, f := range fs {
+			parts[i] = t.zeroOf(f.typ)
+		}
+		return "(" + strings.Join(parts, ", ") + ")"
+	}
+	miss("%s: zero value of type %s", t.what, typ)
+	return "default"
+}
+
+// compositeLit translates `T{…}` (keyed or positional) to the tuple of its field values in declaration order.
+func (t *trCtx) compositeLit(cl *ast.CompositeLit) string {
+	id, ok := cl.Type.(*ast.Ident)
+	if !ok {
+		miss("%s: composite literal of an unnamed type", t.what)
+		return "default"
+	}
+	tagged, ok := t.lits[id.Name]
+	fs, ok2 := t.p.structs[id.Name]
+	if !ok || !ok2 {
+		miss("%s: composite literal of type %s", t.what, id.Name)
+		return "default"
+	}
+	vals := make([]string, len(fs))
+	for i, el := range cl.Elts {
+		if k, ok := el.(*ast.KeyValueExpr); ok {
+			kid, _ := k.Key.(*ast.Ident)
+			found := false
+			for j, f := range fs {
+				if kid != nil && f.name == kid.Name && vals[j] == "" {
+					vals[j] = t.expr(k.Value)
+					found = true
+				}
+			}
+			if !found {
+				miss("%s: field key of %s literal", t.what, id.Name)
+			}
+		} else if i < len(fs) && len(cl.Elts) == len(fs) {
+			vals[i] = t.expr(el)
+		} else {
+			miss("%s: positional %s literal", t.what, id.Name)
+		}
+	}
+	for j, f := range fs {
+		if vals[j] == "" {
+			vals[j] = t.zeroOf(f.typ)
+		}
+	}
+	if tagged {
+		return fmt.Sprintf("(%q, [%s])", id.Name, strings.Join(vals, ", "))
+	}
+	return "(" + strings.Join(vals, ", ") + ")"
+}
+
+// errName finds the sentinel error a returned error expression wraps: `ErrX` itself or the `%w` operand of fmt.Errorf.
+func (t *trCtx) errName(e ast.Expr) string {
+	if id, ok := e.(*ast.Ident); ok && strings.HasPrefix(id.Name, "Err") {
+		return id.Name
+	}
+	if c, ok := e.(*ast.CallExpr); ok && render(c.Fun) == "fmt.Errorf" && len(c.Args) >= 2 {
+		if v, ok := t.p.eval(c.Args[0], 0); ok {
+			if f, ok := v.(string); ok {
+				n := 0 // index of the operand the verb under the cursor consumes
+				for i := 0; i < len(f); i++ {
+					if f[i] != '%' {
+						continue
+					}
+					i++
+					for i < len(f) && strings.IndexByte("+-# 0123456789.", f[i]) >= 0 {
+						i++
+					}
+					if i >= len(f) || f[i] == '%' {
+						continue
+					}
+					if f[i] == 'w' && 1+n < len(c.Args) {
+						if id, ok := c.Args[1+n].(*ast.Ident); ok && strings.HasPrefix(id.Name, "Err") {
+							return id.Name
+						}
+					}
+					n++
+				}
+			}
+		}
+	}
+	miss("%s: returned error is neither a sentinel nor fmt.Errorf wrapping one with %%w", t.what)
+	return "?"
 }
 
 func (t *trCtx) expr(e ast.Expr) string {
+	if t.wrap != nil {
+		if cl, ok := e.(*ast.CompositeLit); ok {
+			if s, ok := t.byteSlice(cl); ok {
+				return s
+			}
+		}
+		s, _ := t.typed(e, "")
+		return s
+	}
+	return t.exprU(e)
+}
+
+// exprU: expressions over the unbounded model types.
+func (t *trCtx) exprU(e ast.Expr) string {
+	switch e.(type) {
+	case *ast.Ident, *ast.SelectorExpr, *ast.StarExpr:
+		if sv, ok := t.svals[render(e)]; ok {
+			return "(" + strings.Join(sv.terms, ", ") + ")"
+		}
+	}
 	switch e := e.(type) {
+	case *ast.CompositeLit:
+		return t.compositeLit(e)
 	case *ast.BasicLit:
 		switch e.Kind {
+		case token.STRING:
+			if v, err := strconv.Unquote(e.Value); err == nil {
+				return bytesLit(v)
+			}
 		case token.INT:
 			if n, ok := new(big.Int).SetString(e.Value, 0); ok {
 				return n.String()
@@ -51,10 +269,17 @@ func (t *trCtx) expr(e ast.Expr) string {
 			}
 		}
 	case *ast.SelectorExpr:
-		if x, ok := e.X.(*ast.Ident); ok {
-			if r, ok := t.ren[x.Name+"."+e.Sel.Name]; ok {
-				return r
+		if r, ok := t.ren[render(e)]; ok {
+			return r
+		}
+		if sv, ok := t.svals[render(e.X)]; ok { // a field of a struct value
+			if f := sv.pick([]string{e.Sel.Name}, t.what); len(f) == 1 {
+				return f[0]
 			}
+			return "default"
+		}
+		if render(e) == "math.MaxUint64" {
+			return "18446744073709551615"
 		}
 	case *ast.ParenExpr:
 		return "(" + t.expr(e.X) + ")"
@@ -67,7 +292,28 @@ func (t *trCtx) expr(e ast.Expr) string {
 		if e.Op == token.SUB {
 			return "(-" + t.expr(e.X) + ")"
 		}
+		if cl, ok := e.X.(*ast.CompositeLit); ok && e.Op == token.AND { // &T{…}: the model has no pointers
+			return t.compositeLit(cl)
+		}
 	case *ast.CallExpr:
+		if sel, ok := e.Fun.(*ast.SelectorExpr); ok {
+			if m, ok := t.methods[sel.Sel.Name]; ok {
+				recv, ok := t.svals[render(sel.X)]
+				if !ok {
+					miss("%s: receiver of .%s is not a known struct value", t.what, sel.Sel.Name)
+					return "default"
+				}
+				args := recv.pick(m.fields, t.what)
+				for _, a := range e.Args {
+					if sv, ok := t.svals[render(a)]; ok {
+						args = append(args, sv.pick(m.fields, t.what)...)
+					} else {
+						args = append(args, t.expr(a))
+					}
+				}
+				return "(" + m.lean + " " + strings.Join(args, " ") + ")"
+			}
+		}
 		if id, ok := e.Fun.(*ast.Ident); ok {
 			if f, ok := t.calls[id.Name]; ok {
 				args := make([]string, len(e.Args))
@@ -92,12 +338,34 @@ func (t *trCtx) expr(e ast.Expr) string {
 			token.LAND: "&&", token.LOR: "||", token.ADD: "+", token.SUB: "-", token.MUL: "*", token.REM: "%", token.QUO: "/",
 			token.AND: "&&&", token.OR: "|||", token.SHL: "<<<", token.SHR: ">>>"}
 		if op, ok := ops[e.Op]; ok {
+			if (e.Op == token.EQL || e.Op == token.NEQ) && (isNil(e.X) || isNil(e.Y)) {
+				other := e.X
+				if isNil(other) {
+					other = e.Y
+				}
+				if r, ok := t.ren["nil:"+render(other)]; ok {
+					if e.Op == token.NEQ {
+						return "(!" + r + ")"
+					}
+					return r
+				}
+				miss("%s: nil test of %s", t.what, render(other))
+				return "default"
+			}
 			if e.Op == token.EQL || e.Op == token.NEQ {
 				// `a % k == 0` / `!= 0`: truncated and Euclidean remainders agree on being zero
 				if rem, ok := e.X.(*ast.BinaryExpr); ok && rem.Op == token.REM {
 					if lit, ok := e.Y.(*ast.BasicLit); ok && lit.Value == "0" {
 						return "((" + t.expr(rem.X) + " % " + t.expr(rem.Y) + ") " + op + " 0)"
 					}
+				}
+			}
+			for _, f := range t.forbid {
+				if e.Op == f {
+					if n, ok := t.constFold(e); ok { // a constant expression (`1 << 63`) is exact
+						return n
+					}
+					miss("%s: operator %s on fixed-width words is outside the fragment", t.what, e.Op)
 				}
 			}
 			if e.Op == token.REM || e.Op == token.QUO {
@@ -116,6 +384,32 @@ func (t *trCtx) expr(e ast.Expr) string {
 }
 
 func (t *trCtx) results(rs []ast.Expr) string {
+	if t.errRes {
+		if len(rs) == 0 {
+			miss("%s: bare return", t.what)
+			return "default"
+		}
+		last := rs[len(rs)-1]
+		if !isNil(last) {
+			return fmt.Sprintf("(.error %q)", t.errName(last))
+		}
+		rs = rs[:len(rs)-1]
+		if len(rs) == 0 {
+			sv, ok := t.svals[t.recv]
+			if !ok {
+				miss("%s: no receiver state to return", t.what)
+			}
+			return "(.ok (" + strings.Join(sv.terms, ", ") + "))"
+		}
+		return "(.ok " + t.tuple(rs) + ")"
+	}
+	if t.partial {
+		return "(some " + t.tuple(rs) + ")"
+	}
+	return t.tuple(rs)
+}
+
+func (t *trCtx) tuple(rs []ast.Expr) string {
 	parts := make([]string, len(rs))
 	for i, r := range rs {
 		parts[i] = t.expr(r)
@@ -202,12 +496,53 @@ func (t *trCtx) block(list []ast.Stmt, rest func() string, ind string) string {
 			}
 			return after()
 		}
+	case *ast.ExprStmt:
+		if c, ok := st.X.(*ast.CallExpr); ok && t.partial && render(c.Fun) == "panic" {
+			return "none"
+		}
 	case *ast.AssignStmt:
 		if st.Tok == token.DEFINE && len(st.Lhs) == 1 && len(st.Rhs) == 1 {
 			if id, ok := st.Lhs[0].(*ast.Ident); ok {
-				v := t.expr(st.Rhs[0])
-				t.ren[id.Name] = id.Name
+				v := t.define(id.Name, st.Rhs[0])
 				return "let " + id.Name + " := " + v + "\n" + ind + after()
+			}
+		}
+		// sum, carry := bits.Add64(x, y, c) with a literal carry-in: the 65-bit sum split at 2^64
+		if st.Tok == token.DEFINE && len(st.Lhs) == 2 && len(st.Rhs) == 1 && t.wrap == nil {
+			c, ok := st.Rhs[0].(*ast.CallExpr)
+			s, ok1 := st.Lhs[0].(*ast.Ident)
+			o, ok2 := st.Lhs[1].(*ast.Ident)
+			if ok && ok1 && ok2 && render(c.Fun) == "bits.Add64" && len(c.Args) == 3 {
+				if lit, ok := c.Args[2].(*ast.BasicLit); ok && (lit.Value == "0" || lit.Value == "1") {
+					sum := "(" + t.expr(c.Args[0]) + " + " + t.expr(c.Args[1]) + " + " + lit.Value + ")"
+					t.ren[s.Name], t.ren[o.Name] = s.Name, o.Name
+					return "let " + s.Name + " := " + sum + " % 18446744073709551616\n" + ind +
+						"let " + o.Name + " := " + sum + " / 18446744073709551616\n" + ind + after()
+				}
+			}
+		}
+		// r.field = e: the receiver state returned by `return nil` (errRes with recv)
+		if st.Tok == token.ASSIGN && len(st.Lhs) == 1 && len(st.Rhs) == 1 && t.recv != "" {
+			if sel, ok := st.Lhs[0].(*ast.SelectorExpr); ok && render(sel.X) == t.recv {
+				sv := t.svals[t.recv]
+				for i, f := range sv.fields {
+					if f == sel.Sel.Name {
+						v := t.expr(st.Rhs[0])
+						if t.wrap != nil {
+							var typ string
+							v, typ = t.typed(st.Rhs[0], t.types[render(sel)])
+							if typ == "" || canon(typ) != canon(t.types[render(sel)]) {
+								miss("%s: %s assigned a value of type %s", t.what, render(sel), typ)
+							}
+						}
+						name := t.recv + "_" + f + "'"
+						terms := append([]string{}, sv.terms...)
+						terms[i] = name
+						t.svals[t.recv] = sval{sv.fields, terms}
+						t.ren[render(sel)] = name
+						return "let " + name + " := " + v + "\n" + ind + after()
+					}
+				}
 			}
 		}
 	}
@@ -215,17 +550,64 @@ func (t *trCtx) block(list []ast.Stmt, rest func() string, ind string) string {
 	return "default"
 }
 
+// define binds a local name (untyped mode: the value as it is).
+func (t *trCtx) define(name string, rhs ast.Expr) string {
+	if t.wrap != nil {
+		v, typ := t.typed(rhs, "")
+		t.types[name] = typ
+		t.ren[name] = name
+		return v
+	}
+	v := t.expr(rhs)
+	t.ren[name] = name
+	return v
+}
+
 // translateFunc emits `def <leanName> <sig> :=\n  <body>`.
 func translateFunc(p *pkg, goName, leanName, sig string, ren, calls map[string]string) string {
+	return translateFuncX(p, goName, leanName, sig, ren, calls, trOpts{})
+}
+
+// translateFuncX: keys of ren and o.svals may name the receiver as `$r` and the parameters as `$1`, `$2`, …
+// so that renaming them in the source changes nothing.
+func translateFuncX(p *pkg, goName, leanName, sig string, ren, calls map[string]string, o trOpts) string {
 	fd := p.funcs[goName]
 	if fd == nil || fd.Body == nil {
 		miss("%s.%s not found", p.name, goName)
 		return fmt.Sprintf("def %s %s := default", leanName, sig)
 	}
-	t := &trCtx{p: p, ren: map[string]string{}, calls: calls, what: p.name + "." + goName}
-	for k, v := range ren {
-		t.ren[k] = v
+	pos := map[string]string{"$r": "\x00unnamed receiver"}
+	if r := recvName(fd); r != "" {
+		pos["$r"] = r
 	}
+	n := 0
+	for _, f := range fd.Type.Params.List {
+		for _, nm := range f.Names {
+			n++
+			pos["$"+strconv.Itoa(n)] = nm.Name
+		}
+	}
+	subst := func(k string) string {
+		for i := 9; i >= 1; i-- {
+			if v, ok := pos["$"+strconv.Itoa(i)]; ok {
+				k = strings.ReplaceAll(k, "$"+strconv.Itoa(i), v)
+			}
+		}
+		return strings.ReplaceAll(k, "$r", pos["$r"])
+	}
+	t := &trCtx{p: p, ren: map[string]string{}, calls: calls, what: p.name + "." + goName, trOpts: o}
+	for k, v := range ren {
+		t.ren[subst(k)] = v
+	}
+	t.svals = map[string]sval{}
+	for k, v := range o.svals {
+		t.svals[subst(k)] = v
+	}
+	t.types = map[string]string{}
+	for k, v := range o.types {
+		t.types[subst(k)] = v
+	}
+	t.recv = subst(o.recv)
 	body := t.block(fd.Body.List, nil, "  ")
 	return fmt.Sprintf("def %s %s :=\n  %s", leanName, sig, body)
 }
